@@ -16,6 +16,7 @@ rep = z3.Function("rep", Sq, Int, Sq)  # python s * k
 unit = z3.Function("unit", Int, Sq)
 empty = z3.Const("empty", Sq)
 bxor = z3.Function("bxor", Int, Int, Int)
+xormask = z3.Function("xormask", Sq, Sq, Sq)  # spec: data xor key cyclically (key of length 4)
 bor = z3.Function("bor", Int, Int, Int)
 band = z3.Function("band", Int, Int, Int)
 # uninterpreted library functions (A-UTF8, A-B64/A-SHA1)
@@ -63,6 +64,9 @@ def _axioms():
     A([x, y], z3.Implies(z3.And(0 <= x, x < 256, 0 <= y, y < 256),
                          z3.And(0 <= bxor(x, y), bxor(x, y) < 256, bxor(bxor(x, y), y) == x)), [bxor(x, y)])
     A([x], z3.Implies(z3.And(0 <= x, x < 256), bxor(x, 0) == x), [bxor(x, 0)])
+    A([a, b], slen(xormask(a, b)) == slen(a), [xormask(a, b)])
+    A([a, b, i], z3.Implies(z3.And(0 <= i, i < slen(a)), at(xormask(a, b), i) == bxor(at(a, i), at(b, i % 4))),
+      [at(xormask(a, b), i)])
     return ax
 
 
@@ -72,9 +76,17 @@ AXIOMS = _axioms()
 def seq_eq(a, b):
     """Goal form of a == b for sequences (pointwise; skolemised by the solver when negated)."""
     i = z3.Int("i!eq")
-    return z3.And(slen(a) == slen(b),
-                  z3.ForAll([i], z3.Implies(z3.And(0 <= i, i < slen(a)), at(a, i) == at(b, i)),
-                            patterns=[at(a, i), at(b, i)]))
+    body = z3.Implies(z3.And(0 <= i, i < slen(a)), at(a, i) == at(b, i))
+    pats = [at(t, i) for t in (a, b) if z3.is_app(t) and t.decl().kind() == z3.Z3_OP_UNINTERPRETED and not has_ite(t)]
+    try:
+        q = z3.ForAll([i], body, patterns=pats) if pats else z3.ForAll([i], body)
+    except z3.Z3Exception:
+        q = z3.ForAll([i], body)
+    return z3.And(slen(a) == slen(b), q)
+
+
+def has_ite(t):
+    return (z3.is_app(t) and t.decl().kind() == z3.Z3_OP_ITE) or any(has_ite(ch) for ch in t.children())
 
 
 def cat_all(parts):
@@ -146,7 +158,9 @@ def _ground_terms(fs):
     """Ground sub-terms (no bound variables) of sort Sq, and Int terms used as sequence indices."""
     sq, ints, seen = {}, {}, set()
 
-    def has_var(t, cache={}):
+    cache = {}
+
+    def has_var(t):
         k = t.get_id()
         if k in cache:
             return cache[k]
